@@ -31,6 +31,7 @@ def run_property(pid, tier, seed):
     from .engine import Engine
     specs_src = open(os.path.join(VERIF, "contracts", "specs.py")).read()
     all_ctx = {}
+    engines = [("property-level lemmas", eng)]
     for key in mod.FUNCTIONS:
         c = eng.reg.get(key)
         if c is None:
@@ -50,8 +51,7 @@ def run_property(pid, tier, seed):
         eng.quick_calls += e1.quick_calls
         eng.quick_time += e1.quick_time
         eng.paths += e1.paths
-        for ax, ks in zip(e1.axioms, e1.axioms.keys):
-            eng.axioms.append(ax, ks)
+        engines.append((key, e1))
         all_ctx.update(getattr(e1, "fn_ctx", {}))
     eng.fn_ctx = all_ctx
     extra_info = None
@@ -77,14 +77,20 @@ def run_property(pid, tier, seed):
     if disagreements:
         faults.append(f"back ends disagree on: {disagreements[:5]}")
     # canary: `False` must not be provable from the global axioms (inconsistent lemma schemas would prove anything)
-    s = z3.Solver()
-    s.set("timeout", 20000)
-    s.set("rlimit", 50_000_000)
-    for a in eng.axioms:
-        s.add(a)
-    canary = str(s.check())
-    if canary == "unsat":
-        faults.append("canary failed: global axioms are inconsistent")
+    # (per engine: symbol classes such as SUM0 are numbered per engine, so axiom sets of different engines must not be mixed)
+    canary = "sat"
+    for key, e1 in engines:
+        s = z3.Solver()
+        s.set("timeout", 20000)
+        s.set("rlimit", 50_000_000)
+        for a in e1.axioms:
+            s.add(a)
+        r = str(s.check())
+        if r == "unsat":
+            canary = "unsat"
+            faults.append(f"canary failed: the axioms used for {key} are inconsistent")
+        elif r != "sat" and canary == "sat":
+            canary = r
 
     # second chance under a more precise (still sound) float error model for the functions that need it
     retry_env = getattr(mod, "RETRY_ENV", None)
@@ -124,6 +130,12 @@ def run_property(pid, tier, seed):
     ctx = getattr(eng, "fn_ctx", {})
     by_fn_failed = {}
     regressed = []
+    import re as _re
+
+    def _noline(name):
+        # obligation names carry source line numbers (loop0@122, call@57): an edit above them must not hide the obligation
+        return _re.sub(r"@\d+", "@", name)
+    baseline_nolines = {_noline(k): v for k, v in baseline.items()}
     canaries = [o for o in eng.obligations if o.kind == "canary"]
     for o in canaries:
         if o.result == "valid":
@@ -136,7 +148,7 @@ def run_property(pid, tier, seed):
         if f is None:
             # undecided by the back ends. If this very obligation was discharged on the reference tree and the function's
             # source has changed since, it is reported (with the solver's reason) rather than left undecided.
-            b = baseline.get(ob.name)
+            b = baseline.get(ob.name) or baseline_nolines.get(_noline(ob.name))
             cur_sha = eng.repo.func(ob.fn).sha if (":" in ob.fn and eng.repo.has_func(ob.fn)) else None
             if b is not None and cur_sha is not None and b.get("sha") != cur_sha:
                 os.makedirs(os.path.join(VERIF, "replays", pid), exist_ok=True)
